@@ -60,6 +60,7 @@ pub struct Knobs {
     pub max_restarts: u32,
     pub initial_running: usize,
     pub prefixes: Vec<String>,
+    pub writers: Vec<usize>,
 }
 
 fn id_string(r: &mut Rng, len: usize, p: usize) -> String {
@@ -95,28 +96,39 @@ pub fn draw(r: &mut Rng, profile: Profile, enabled: &[String]) -> (E1Config, Kno
     let max_restarts = if matches!(profile, Profile::SizePressure) { 0 } else { 2 };
     // node ids: short by default, long under size pressure
     let mut node_ids: Vec<String> = (0..n).map(|p| format!("node-{p}")).collect();
-    if profile == Profile::SizePressure {
-        let target_digest = *r.pick(&[2_000usize, 20_000, 50_000, 60_000, 64_000, 65_000, 65_200, 65_300]);
-        let per = (target_digest - 2) / n;
-        let id_len = per.saturating_sub(2 + 8 + 7 + 24).clamp(2, 16_000);
-        node_ids = (0..n).map(|p| id_string(r, id_len, p)).collect();
-    } else if r.chance(0.1) {
-        node_ids = (0..n).map(|p| id_string(r, *r.clone().pick(&[0usize, 1, 255, 256, 300]), p)).collect();
-        // ids must stay distinct per position even when very short
-        for (p, s) in node_ids.iter_mut().enumerate() {
-            if s.len() < 2 {
-                *s = format!("{p}");
-            }
-        }
-    }
+    // positions allowed to write (under tight size pressure only short-id nodes own data, so that
+    // "digest + node op + one key-value fit a datagram" keeps holding)
+    let mut writers: Vec<usize> = (0..n).collect();
     let ipv6 = r.chance(0.3);
-    let id_bytes = node_ids.iter().map(|s| s.len()).max().unwrap_or(0) + 2 + 8 + 1 + 16 + 2 + 24;
-    let max_members = n + max_restarts as usize;
-    let max_digest = 2 + max_members * id_bytes;
-    assert!(max_digest <= 65_400, "generator bug: digest bound {max_digest}");
-    let room = 65_507usize - 4 - max_digest - id_bytes - 400;
+    let addr_bytes = if ipv6 { 19 } else { 7 };
+    if profile == Profile::SizePressure {
+        if r.chance(0.6) {
+            // tight: position 0 has a short id, the others inflate the digest towards the limit
+            let target_digest = *r.pick(&[20_000usize, 50_000, 60_000, 64_000, 65_000, 65_200, 65_300, 65_380]);
+            let short = *r.pick(&[2usize, 6, 40, 200]);
+            let fixed = 2 + n * (2 + 8 + addr_bytes + 24);
+            let rest = target_digest.saturating_sub(fixed + short);
+            let per = (rest / (n - 1)).clamp(2, 65_000);
+            node_ids = (0..n).map(|p| if p == 0 { id_string(r, short, p) } else { id_string(r, per, p) }).collect();
+            writers = vec![0];
+        } else {
+            let target_digest = *r.pick(&[2_000usize, 10_000, 30_000, 45_000]);
+            let per = (target_digest / n).saturating_sub(2 + 8 + addr_bytes + 24).clamp(2, 16_000);
+            node_ids = (0..n).map(|p| id_string(r, per, p)).collect();
+        }
+    } else if r.chance(0.1) {
+        let len = *r.pick(&[1usize, 2, 255, 256, 300]);
+        node_ids = (0..n).map(|p| id_string(r, len, p)).collect();
+    }
+    let id_cost = |s: &String| s.len() + 2 + 8 + addr_bytes + 24;
+    let max_members_extra = max_restarts as usize * node_ids.iter().map(id_cost).max().unwrap_or(0);
+    let max_digest = 2 + node_ids.iter().map(id_cost).sum::<usize>() + max_members_extra;
+    assert!(max_digest <= 65_403, "generator bug: digest bound {max_digest}");
+    let writer_node_op = writers.iter().map(|p| node_ids[*p].len() + 2 + 8 + addr_bytes + 17).max().unwrap_or(0);
+    let room = (65_507usize - 4 - max_digest).saturating_sub(writer_node_op + 64);
     let big = matches!(profile, Profile::SizePressure) || (matches!(profile, Profile::General | Profile::DeathHeavy) && r.chance(0.3));
-    let max_val = if big { room.min(60_000) as u32 } else { room.min(12) as u32 };
+    // one key-value op costs 14 bytes plus key and value; keys are at most 8 bytes here
+    let max_val = if big { room.saturating_sub(24).min(60_000) as u32 } else { room.saturating_sub(24).min(12) as u32 };
     let skew = |r: &mut Rng, base: u64| -> Vec<u64> {
         let skewed = r.chance(0.3);
         (0..n).map(|_| if skewed { base * r.range(80, 125) / 100 } else { base }).collect()
@@ -215,7 +227,14 @@ pub fn draw(r: &mut Rng, profile: Profile, enabled: &[String]) -> (E1Config, Kno
         max_restarts,
         initial_running: r.range(1, n as u64) as usize,
         prefixes,
+        writers,
     };
+    if enabled.iter().any(|e| e == "C18") {
+        k.w_catchup = 12;
+    }
+    if enabled.iter().any(|e| e == "C17") {
+        k.real_selection = true;
+    }
     match profile {
         Profile::SmallVersions => {
             k.steps = r.range(20, 120) as usize;
@@ -347,7 +366,11 @@ impl Gen {
         let n = w.cfg.n;
         match which {
             0 => {
-                let Some(p) = self.pick_running(w) else { return Cmd::Join { p: 0 } };
+                let ws: Vec<usize> = self.k.writers.iter().copied().filter(|p| w.running(*p)).collect();
+                if ws.is_empty() {
+                    return self.advance(w);
+                }
+                let p = *self.r.pick(&ws);
                 let key = self.r.pick(&self.k.keys).clone();
                 let op = *self.r.pick(&[WriteOp::Set, WriteOp::Set, WriteOp::Set, WriteOp::SetTtl, WriteOp::Delete, WriteOp::Delete, WriteOp::DeleteTtl]);
                 let mut val = self.value();
